@@ -69,6 +69,21 @@ func (x *Exec) atSite(s *State, in ssa.Instruction) bool {
 		defer x.recoverSpec("at "+site, &ok)
 		for i, cl := range x.con.At[site] {
 			env := x.envFor(s, nil)
+			// the arguments of the call at this site: arg0, arg1, ... (receiver first)
+			if ci, ok := in.(ssa.CallInstruction); ok {
+				for k, a := range ci.Common().Args {
+					if v, has := func() (v Value, has bool) {
+						defer func() {
+							if recover() != nil {
+								has = false
+							}
+						}()
+						return x.val(s, a), true
+					}(); has {
+						env.vars[fmt.Sprintf("arg%d", k)] = v
+					}
+				}
+			}
 			t := env.checkTerm(cl)
 			o := x.ob("at", site+"#"+clauseName(cl, i), cl.Src, in)
 			s.check(o, t)
